@@ -1642,6 +1642,14 @@ func c06gen(c *h.Ctx, yield func(*h.Case)) {
 		case 7: // failed request, expiry
 			ops = append(ops, "c06 h.request 1", "c06 h.unrequest 1", resp(t1, 1, 1), "c06 h.request 1", resp(t1, 1, 1), "c06 h.unrequest 1", "c06 h.expire 1", resp(t1, 1, 1), "c06 h.msg reqtree 1 1")
 			emit("history unrequest-expire", ops)
+		case 10: // a tree value without roster registered locally, then requests from a peer (332e6f9)
+			if (i/12)%2 == 1 {
+				ops = append(ops, "c06 h.request 1", "c06 strip 12 2", "c06 h.register 12", "c06 h.msg reqroster 1", resp(t1, 1, 1), "c06 h.msg reqroster 1",
+					"c06 h.msg reqtree 2 1", "c06 h.msg reqtree 2 0", "c06 h.msg reqtree 1 1", "c06 h.expire 1", "c06 h.msg reqroster 1", "c06 h.msg reqroster 2")
+				emit("history rosterless-registered", ops)
+				continue
+			}
+			fallthrough
 		default: // random history
 			var alpha []string
 			for _, t := range ts[:4] {
